@@ -1,7 +1,7 @@
 (* C08 - Windows join and push follow the documented joining rules. *)
 From Coq Require Import List NArith Bool.
 Import ListNotations.
-From TP Require Import Core Path Unix Win Spec C08Proofs GenJoin WinSimple.
+From TP Require Import Core Path Unix Win Spec C08Proofs GenJoin WinSimple WinExtend WinBare WinVerbJoin.
 
 (* The rule table is Spec.join_spec (written over the grammar specification wspec only):
      b empty                      -> a
@@ -66,9 +66,97 @@ Proof. exact wspec_join_rooted_disk. Qed.
 Print Assumptions C08_comps_plain.
 Print Assumptions C08_comps_disk.
 Print Assumptions C08_comps_rooted_disk.
-(* C08_comps_partial: for a with a UNC / verbatim / device prefix the component-level reading is decided
-   on every explored pair through the C10 oracle (the join starts with a and stripping a yields b's
-   components); at Unix it holds by C04_unix_contains. *)
+(* ... a with a UNC, device-namespace or drive prefix followed by a non-empty rest (WinExtend.v).  First the
+   grammar fact everything rests on: such a prefix is read the same way whatever follows it, provided what
+   follows begins with a separator (after a drive: anything).  The rest must be non-empty: \\server alone takes
+   the next name as its share. *)
+Theorem C08_prefix_grammar_stable : forall (l : list N) (k : wprefix) (r : list N),
+  wprefix_grammar l = Some (k, r) -> k_verbatim k = false -> r <> [] ->
+  exists p, l = p ++ r /\ p <> [] /\ fits k r /\
+            forall r', fits k r' -> wprefix_grammar (p ++ r') = Some (k, r') /\ s_norm (p ++ r') = true.
+Proof. exact grammar_repl. Qed.
+Theorem C08_prefixed_decomposition : forall (l : list N) (k : wprefix) (r : list N),
+  wprefix_grammar l = Some (k, r) -> k_verbatim k = false -> r <> [] ->
+  exists p, l = p ++ r /\ p <> [] /\ fits k r /\
+            forall r', fits k r' -> wspec (p ++ r') = WPrefix p k :: map WC (gcomps (wsep true) r').
+Proof. exact wspec_prefixed. Qed.
+(* ... b relative, prefix-free, non-empty: a's components followed by b's (minus a leading ".") *)
+Theorem C08_comps_prefixed : forall (a : list N) (k : wprefix) (r b : list N),
+  wprefix_grammar a = Some (k, r) -> k_verbatim k = false -> r <> [] ->
+  noprefix b = true -> g_rooted (wsep true) b = false -> b <> [] ->
+  wspec (w_push a b) = wspec a ++ map WC (gadded (wsep true) b).
+Proof. exact wspec_join_prefixed. Qed.
+(* ... b rooted (no prefix): a's prefix followed by b *)
+Theorem C08_comps_rooted_prefixed : forall (a : list N) (k : wprefix) (r b : list N),
+  wprefix_grammar a = Some (k, r) -> k_verbatim k = false -> r <> [] ->
+  noprefix b = true -> g_rooted (wsep true) b = true ->
+  exists p, a = p ++ r /\ wspec (w_push a b) = WPrefix p k :: map WC (gcomps (wsep true) b).
+Proof. exact wspec_join_rooted_prefixed. Qed.
+Print Assumptions C08_prefix_grammar_stable.
+Print Assumptions C08_prefixed_decomposition.
+Print Assumptions C08_comps_prefixed.
+Print Assumptions C08_comps_rooted_prefixed.
+(* ... a the BARE prefix: a UNC prefix with a non-empty share, a device-namespace prefix or a drive, with nothing
+   after it (WinBare.v).  It is read the same way when a separator and anything else follows, it does not end in
+   a separator, so the join inserts one: the prefix, the root every non-drive prefix implies, what b adds. *)
+Theorem C08_bare_prefix_stable : forall (l : list N) (k : wprefix),
+  wprefix_grammar l = Some (k, []) -> k_verbatim k = false -> complete k ->
+  l <> [] /\ (is_disk k = false -> ends_in_sep l = false) /\
+  forall r', fits k r' -> wprefix_grammar (l ++ r') = Some (k, r') /\ s_norm (l ++ r') = true.
+Proof. exact grammar_bare. Qed.
+Theorem C08_comps_bare : forall (a : list N) (k : wprefix) (b : list N),
+  wprefix_grammar a = Some (k, []) -> k_verbatim k = false -> complete k -> is_disk k = false ->
+  noprefix b = true -> g_rooted (wsep true) b = false -> b <> [] ->
+  w_push a b = a ++ 92 :: b /\ wspec (w_push a b) = wspec a ++ WC Root :: map WC (gadded (wsep true) b).
+Proof. exact wspec_join_bare. Qed.
+Theorem C08_comps_rooted_bare : forall (a : list N) (k : wprefix) (b : list N),
+  wprefix_grammar a = Some (k, []) -> k_verbatim k = false -> complete k ->
+  noprefix b = true -> g_rooted (wsep true) b = true ->
+  w_push a b = a ++ b /\ wspec (w_push a b) = WPrefix a k :: map WC (gcomps (wsep true) b).
+Proof. exact wspec_join_rooted_bare. Qed.
+Print Assumptions C08_bare_prefix_stable.
+Print Assumptions C08_comps_bare.
+Print Assumptions C08_comps_rooted_bare.
+(* the condition "complete" is needed: \\server alone takes the next name as its share *)
+Lemma C08_incomplete_unc_refuted :
+  wprefix_grammar [92;92;115] = Some (UNC [115] [], []) /\ wprefix_grammar [92;92;115;92;120] = Some (UNC [115] [120], []).
+Proof. vm_compute. split; reflexivity. Qed.
+(* ... a with a VERBATIM prefix (\\?\name, \\?\UNC\server\share, \\?\X:) followed by a root (WinVerbJoin.v): the
+   join folds b's components into a's -- "." dropped, ".." cancelling a preceding name and never the root or the
+   prefix, a root keeping only the prefix -- and writes the result with single '\'; read again from scratch the
+   result has exactly the folded components.  The core is a writer / reader round trip: every component the
+   grammar reads after a separator survives being written with '\' between names and read again.  The one
+   verbatim kind left out is the prefix NAMED exactly "UNC" (finding D17). *)
+Theorem C08_comps_verbatim : forall (a : list N) (k : wprefix) (r b : list N),
+  wprefix_grammar a = Some (k, r) -> k_verbatim k = true -> k <> Verbatim [85; 78; 67] ->
+  sep_headed (s_wsep (s_norm a)) r -> noprefix b = true -> b <> [] ->
+  wspec (w_push a b) = fold_left vstep (wspec b) (wspec a).
+Proof. exact wspec_join_verbatim. Qed.
+Theorem C08_verbatim_prefix_stable : forall (l : list N) (k : wprefix) (r : list N),
+  wprefix_grammar l = Some (k, r) -> k_verbatim k = true -> k <> Verbatim [85; 78; 67] -> r <> [] ->
+  exists p, l = p ++ r /\ (4 <= length p)%nat /\ fitsv (s_wsep (s_norm l)) k r /\
+            forall r', fitsv (s_wsep (s_norm l)) k r' ->
+                       wprefix_grammar (p ++ r') = Some (k, r') /\ s_norm (p ++ r') = s_norm l.
+Proof. exact grammar_repl_verbatim. Qed.
+Theorem C08_write_read_roundtrip : forall (f : N -> bool) (norm : bool), f 92 = true -> f 46 = false ->
+  forall items, Forall (atom_ok f norm) items -> spec_comps f norm (92 :: render (map cbytes items)) = Root :: items.
+Proof. exact spec_comps_render. Qed.
+Print Assumptions C08_comps_verbatim.
+Print Assumptions C08_verbatim_prefix_stable.
+Print Assumptions C08_write_read_roundtrip.
+(* the exception the stability theorem carries is real: the finding D17 *)
+Lemma C08_verbatim_named_unc_refuted :
+  wprefix_grammar [92;92;63;92;85;78;67;92] = Some (Verbatim [85;78;67], [92]) /\
+  wprefix_grammar ([92;92;63;92;85;78;67] ++ [92;120]) = Some (VerbatimUNC [120] [], []).
+Proof. exact grammar_repl_verbatim_unc_refuted. Qed.
+(* C08_comps_partial: what is left unproved at the level of components: a verbatim prefix with nothing after it
+   or followed by a name without a root (\\?\C:name), and the verbatim prefix named "UNC"; decided on every
+   explored pair through the C10 oracle. *)
+Example C08_prefixed_example :
+  wspec (w_push [92;92;115;92;104;92;100] [120;47;121]) =
+  wspec [92;92;115;92;104;92;100] ++ [WC (Normal [120]); WC (Normal [121])]           (* \\s\h\d + x/y *)
+  /\ wprefix_grammar [92;92;46;92;67;79;77;49;92;97] = Some (DeviceNS [67;79;77;49], [92;97]).   (* \\.\COM1\a *)
+Proof. vm_compute. repeat split. Qed.
 
 Example C08_example :
   w_push [67;58] [97] = [67;58;97]                                    (* C: + a = C:a *)
